@@ -1,7 +1,7 @@
 (* C14 — non-vacuity: the hypotheses of each theorem are met by concrete, non-trivial data. *)
 From GL Require Import Common.Bytes Pm.Class Pm.PmTypes Pm.RefMatch Pm.GoParse Pm.GoCompile Pm.GoVM
      Pm.Find Pm.Gsub Pm.Flat Pm.ClassFacts Pm.FindFacts Pm.GsubFacts Pm.ParseFacts Pm.CompileFacts
-     Pm.VMFacts Pm.RefFacts Pm.SetFacts Pm.PmRefine Pm.PrintFacts.
+     Pm.VMFacts Pm.RefFacts Pm.SetFacts Pm.PmRefine Pm.PrintFacts Pm.FindRefine Pm.ReplFacts.
 From Coq Require Import Lia.
 
 Example class_agree_ex : go_single_matches 97 120 = true /\ ref_match_class 120 97 = true
@@ -74,4 +74,30 @@ Example ref_flat_ex :
 Proof.
   destruct (items_okb_prints (tail_text false) [FOpen; FRepeat 42 (CChar 97); FClose; FNumber 1] eq_refl)
     as (t & Ht & Hp). exists t. split; [exact Hp|]. cbn in Ht. inversion Ht. reflexivity.
+Qed.
+
+(* find_refines_ref / match_refines_ref: every hypothesis holds for ex_pat on a subject where the
+   reference finds a match with a capture *)
+Example find_refines_ref_ex :
+  let pb := [94;40;37;97;43;41;91;37;100;95;93;45;37;49;36] in
+  let s := [97;98;49;95;97;98] in
+  seq_okb ex_pat = true /\ print_seq ex_pat = Some pb /\ goParse pb = ParseOk ex_pat /\
+  is_bytes s = true /\ 1 + Z.of_nat (vm_fuel s (goCompile ex_pat)) <= maxRecursionLevel /\
+  0 < len pb /\ ref_find s pb 1 = Ok [VNum 1; VNum 6; VStr [97;98]] /\
+  ref_smatch s pb (-6) = Ok [VStr [97;98]].
+Proof. vm_compute. repeat split; congruence. Qed.
+
+(* repl_scanner_spec: a match [1,3) of "xaby" with capture (1,1) and the replacement <%1%%%0> *)
+Example repl_scanner_ex :
+  let m := [2; 6; 2; 4] in let cs := [(1, 1)] in
+  agree 1 m cs /\ mget m 1 = 2 * 3 /\ len m = 2 + 2 * len cs /\
+  Forall rtok_ok [RLit 60; RCap 1; RPct; RCap 0; RLit 62] /\
+  repl_scan 20 [120;97;98;121] m (rtoks_text [RLit 60; RCap 1; RPct; RCap 0; RLit 62]) 0 false [] =
+    Ok [60; 97; 37; 97; 98; 62].
+Proof.
+  cbv zeta. split; [|split; [reflexivity|split; [reflexivity|split; [repeat constructor; cbn; lia|reflexivity]]]].
+  split; [reflexivity|]. split; [reflexivity|].
+  intros j c Hj. destruct (Z.eq_dec j 0) as [->|Hn].
+  - inversion Hj; subst. cbn. repeat split; reflexivity.
+  - pose proof (zth_some_range _ _ _ Hj) as R. change (len [(1, 1)]) with 1 in R. lia.
 Qed.
